@@ -233,9 +233,27 @@ func c04Run(e *core.Env) {
 		run(c04Alphabet(true), 2, "full", 23)
 		run(c04Alphabet(false), 4, "core", 4001)
 	}
+	if e.Take() {
+		// the verdict when the directives are spread over three files, under every loader
+		// schedule: an accepted journal (the assertions in b.knut depend on a.knut) and the
+		// same journal with a wrong assertion
+		root, a, b := multiFileJournal()
+		if !ref.Lifecycle(append(append(append([]jr.Dir(nil), root...), a...), b...)).Accept {
+			e.EngineError("multi-file journal is not accepted by the reference")
+		}
+		multiFileSchedules(e, drv, "C04", "check-accept", root, a, b, []string{"check", "root.knut"})
+		bad := append(cloneDirs(b), jr.A("2020-02-02", jr.Bal{Acc: accChecking, Qty: "151", Com: "USD"}))
+		if ref.Lifecycle(append(append(append([]jr.Dir(nil), root...), a...), bad...)).Accept {
+			e.EngineError("multi-file journal with a wrong assertion is accepted by the reference")
+		}
+		multiFileSchedules(e, drv, "C04", "check-reject", root, a, bad, []string{"check", "root.knut"})
+	}
 }
 
 func c04Replay(e *core.Env, data json.RawMessage) (bool, string) {
+	if h, v, d := replayMultiFile(e, data); h {
+		return v, d
+	}
 	var cs c04Case
 	if err := json.Unmarshal(data, &cs); err != nil {
 		return false, err.Error()
